@@ -40,10 +40,11 @@ def pool_ports(server):
 async def _history(loop, ports, faults, nsess, events, info):
     loop.net.bind_faults = {k: v for k, v in faults.items()}
     server = aioftp.Server(path_io_factory=aioftp.MemoryPathIO, data_ports=list(ports), wait_future_timeout=2)
-    await server.start(HOST, PORT)
+    host = "::1" if info.get("ipv6") else HOST
+    await server.start(host, PORT)
     sess = []
     for i in range(nsess):
-        r = Raw(HOST, PORT, patience=20)
+        r = Raw(host, PORT, patience=20)
         await r.connect()
         await r.cmd("USER anonymous")
         sess.append(dict(raw=r, alive=True, port=None))
@@ -104,6 +105,14 @@ async def _history(loop, ports, faults, nsess, events, info):
                     raise Violation(f"C11/{info['tag']}/session_closed_by_passive_command", dict(trace=trace[-6:], consumed=consumed))
                 s["alive"] = False
                 raw.close()
+            elif code == "503" and verb == "PASV" and info.get("ipv6"):
+                # "this server started in ipv6 mode": refused, but the listener (and its port) may have been opened already and
+                # then belongs to the session; which port it is can only be inferred from the pool
+                if s["port"] is None:
+                    known = [x["port"] for x in sess if x["alive"] and x["port"] is not None]
+                    held = sorted(set(ports) - set(pool_ports(server)) - set(known))
+                    if len(held) == 1:
+                        s["port"] = held[0]
             else:
                 raise Violation(f"C11/{info['tag']}/unexpected_reply_{code}", dict(trace=trace[-6:]))
         elif verb == "LIST":
@@ -175,8 +184,8 @@ async def _history(loop, ports, faults, nsess, events, info):
     await asyncio.wait_for(server.close(), 1000)
 
 
-def run_history(ports, faults, nsess, events, tape=(), tag="faults"):
-    info = dict(tag=tag)
+def run_history(ports, faults, nsess, events, tape=(), tag="faults", ipv6=False):
+    info = dict(tag=tag, ipv6=ipv6)
     try:
         simnet.run(lambda loop: _history(loop, ports, faults, nsess, events, info), tape)
     finally:
@@ -197,6 +206,12 @@ HISTORIES = [
 ]
 
 
+# the last history also runs on an IPv6 listener, where PASV is refused with 503 (the session may keep the listener it opened)
+IPV6_HISTORY = [(0, "PASV"), (1, "EPSV"), (0, "EPSV"), (0, "LIST"), (2, "PASV"), (2, "PASV"), (1, "QUIT"), (2, "DROP"), (1, "PWD"), (0, "PASV"),
+                (0, "QUIT")]
+HISTORIES.append(IPV6_HISTORY)
+
+
 def nsess_of(history):
     return 1 + max(i for i, _ in history)
 
@@ -210,18 +225,18 @@ def part_faults(ctx):
         faults = {k: ERRS[v] for k, v in zip(keys, patterns[pi]) if v}
         info = dict(tag="faults")
         try:
-            info = run_history(PORTS, faults, nsess_of(HISTORIES[hi]), HISTORIES[hi], tag="faults")
+            info = run_history(PORTS, faults, nsess_of(HISTORIES[hi]), HISTORIES[hi], tag="faults", ipv6=HISTORIES[hi] is IPV6_HISTORY)
         except Violation as v:
             ctx.fail(v.sig, dict(faults=[list(k) + [val] for k, val in faults.items()], history=hi), v.detail)
         ctx.count((patterns[pi], hi), bool(faults), sample=dict(faults={f"{k[0]}#{k[1]}": errno.errorcode[v] for k, v in faults.items()},
                                                                history=HISTORIES[hi], trace=info.get("trace")),
                   classes=["history_%d" % hi, "faults_%d" % len(faults)] + (["startup_cut"] if info.get("startup_cut") else []))
-    ctx.exhaustive = False  # exhaustive over the 729 fault patterns, but only for these six histories
+    ctx.exhaustive = False  # exhaustive over the 729 fault patterns, but only for these seven histories
 
 
 def replay_faults(case):
     faults = {(p, a): e for p, a, e in case["faults"]}
-    run_history(PORTS, faults, nsess_of(HISTORIES[case["history"]]), HISTORIES[case["history"]], tag="faults")
+    run_history(PORTS, faults, nsess_of(HISTORIES[case["history"]]), HISTORIES[case["history"]], tag="faults", ipv6=HISTORIES[case["history"]] is IPV6_HISTORY)
 
 
 # ---------------------------------------------------------------- session end inside listener start-up
